@@ -1,6 +1,37 @@
 (* C44 — Names and revision specs parse as documented.  Property theorems only. *)
 From Coq Require Import NArith List Bool.
 From Dolt Require Import Base.Str Gen.RefnameTable C44.Model C44.Spec C44.Corr C44.Proofs.
+Local Open Scope N_scope.
+
+Theorem C44_branch_names_follow_rules :
+  forall s, valid_branch_name s = true <-> ref_rules s.
+Proof. exact valid_branch_name_iff_rules. Qed.
+Print Assumptions C44_branch_names_follow_rules.
+
+Theorem C44_branch_names_follow_rules_b :
+  forall s, valid_branch_name s = ref_rules_b s.
+Proof. exact valid_branch_name_spec. Qed.
+Print Assumptions C44_branch_names_follow_rules_b.
+
+Theorem C44_tag_names_follow_rules :
+  forall s, valid_tag_name s = tag_rules_b s.
+Proof. exact valid_tag_name_spec. Qed.
+Print Assumptions C44_tag_names_follow_rules.
+
+Theorem C44_dataset_ids_follow_rules :
+  forall s, valid_dataset_id s = dataset_rules_b s.
+Proof. exact valid_dataset_id_spec. Qed.
+Print Assumptions C44_dataset_ids_follow_rules.
+
+Theorem C44_commit_spec_is_base_then_walk :
+  forall s, oracle s (model_obs s) = true.
+Proof. exact commit_spec_is_base_then_walk. Qed.
+Print Assumptions C44_commit_spec_is_base_then_walk.
+
+Theorem C44_class_table :
+  forall b : N, b < 128 -> action b = class_of b.
+Proof. exact action_table_classes. Qed.
+Print Assumptions C44_class_table.
 
 Theorem C44_regex_sources_pinned :
   invalid_branch_name_regex = expected_branch_regex /\ invalid_tag_name_regex = expected_tag_regex.
